@@ -276,15 +276,19 @@ CLAIMS: dict[str, tuple[str, str, str, str]] = {
         "§6 C18",
     ),
     "C06": (
-        "PARTIAL: proved are lemma A quote_strip (on a tab-free line '> ' ++ body the block-quote rule leaves exactly the "
-        "indent and consumed prefix that body has as a line of its own, at any nesting depth and inherited offset; built on "
-        "C17.marker_tab and quoteOffsets_prefix) and lemma D nested_loop_frame (the nested loop restores the frame). "
-        "MISSING: the laws themselves (same tokens, levels +1/+2, maps, references) need all block-rule models plus "
-        "level-equivariance and bsCount-irrelevance: decided by the oracle, which applies both laws to the implementation "
-        "on generated documents, repeatedly to depth 6, all marker shapes. Known finding K-C06-1 (HTML blocks with a blank "
-        "line are cut inside list items). Tie: per-line records of the live block-quote rule vs quoteOffsets.",
+        "PARTIAL: PROVED for the modelled sub-parser (normalize, line scan, block loop, rules code, fence, blockquote, hr, "
+        "heading, paragraph with their terminator chains and nested runs; tied to the real parser by the qblock differential "
+        "check): C06c.quote_law — for every tab-free document D given by its lines, every subset of the optional rules, "
+        "every maxNesting >= 0: prefixing every line with '> ' ('>' for an empty line) parses, with maxNesting+1, to exactly "
+        "one block quote over all lines whose content is the token stream of D one level deeper with the same maps "
+        "(unbounded: by the simulation of C06b — bsCount-independence on tab-free line tables, level/maxNesting shift — "
+        "over all rules, the loop and nested runs). Also lemma A quote_strip and lemma D nested_loop_frame. MISSING: the "
+        "list law, rules outside the sub-parser, tabs, the same-maxNesting form: decided by the oracle, which applies both "
+        "laws to the implementation on generated documents, repeatedly to depth 6, all marker shapes. Known finding K-C06-1 "
+        "(HTML blocks with a blank line are cut inside list items). Tie: per-line records of the live block-quote rule vs "
+        "quoteOffsets; modelled sub-parsers vs the real parser on generated and quoted documents.",
         NOTE,
-        "Lean 4 proof (marker-stripping lemma) + refinement trace + container-law oracle",
+        "Lean 4 proof (quote law of the modelled sub-parser by simulation; marker-stripping lemma) + differential tie + container-law oracle",
         "§6 C06",
     ),
     "C07": (
